@@ -222,6 +222,23 @@ def r08_3_implicit(ctx, rid='R08.3'):
                     r.check(ok, '%s: %s guarded (cardinality / has_attribute / `if e.args`)' % (fi.qual, norm(n)[:60]),
                             '%s:const-index:%s' % (fi.key, norm(n)[:60]), fi.loc(n),
                             '%s can raise IndexError: nothing establishes that the list is long enough' % norm(n)[:70])
+                # I10: str.format on a format string that is not a literal (document or hook text inside the format string:
+                # a brace in it raises KeyError/IndexError/ValueError)
+                if isinstance(n, ast.Call) and isinstance(n.func, ast.Attribute) and n.func.attr == 'format' \
+                        and not (isinstance(n.func.value, ast.Name) and n.func.value.id in ('string', 'Formatter')):
+                    f = f or fn_of(fi)
+                    if not f.live(n):
+                        continue
+                    recv = n.func.value
+                    srcs = [recv]
+                    if isinstance(recv, ast.Name):
+                        rd = reaching_defs(f, n, recv.id)
+                        srcs = [d.value for d in rd] if rd else [recv]
+                    ok = all(const_str(x) is not None for x in srcs)
+                    r.check(ok, '%s: format string of %s is a literal' % (fi.qual, norm(n)[:40]),
+                            '%s:format-string:%s' % (fi.key, f.alpha.text(recv)[:60]), fi.loc(n),
+                            'the format string of %s is built at run time (%s): text from the document or from a hook that contains '
+                            '`{` or `}` makes format() raise KeyError/IndexError/ValueError' % (norm(n)[:50], norm(srcs[0])[:60]))
                 # I9: list.remove
                 if isinstance(n, ast.Call) and isinstance(n.func, ast.Attribute) and n.func.attr == 'remove' and n.args:
                     f = f or fn_of(fi)
@@ -582,6 +599,72 @@ def r17_2_key_named(ctx):
         what = 'extraneous key -> the key node\'s mark' if which == 0 else 'wrong attribute type -> the value node\'s mark'
         r.check(ok, '__type_check_attributes: %s' % what, f.key('cited-node:%s' % ('key' if which == 0 else 'value')), f.loc(rs),
                 'the %s error cites the position of another node than the %s node' % ('extraneous-key' if which == 0 else 'attribute-type', 'key' if which == 0 else 'value'))
+    r.done()
+
+
+def mark_sources(f: Fn, use: ast.AST, e: ast.AST, depth: int = 4) -> Set[str]:
+    """receivers X (path-sensitive: through the definitions that reach `use`) of the X.start_mark/.end_mark reads that flow into `e`"""
+    out: Set[str] = set()
+    for n in ast.walk(e):
+        if isinstance(n, ast.Attribute) and n.attr in MARK_ATTRS:
+            out |= _node_sources(f, use, n.value, depth)
+        elif isinstance(n, ast.Name) and isinstance(n.ctx, ast.Load) and depth > 0:
+            for d in reaching_defs(f, use, n.id):
+                if isinstance(d, ast.Assign) and len(d.targets) == 1 and isinstance(d.targets[0], ast.Name):
+                    out |= mark_sources(f, d, d.value, depth - 1)
+    return out
+
+
+def flow_texts(f: Fn, use: ast.AST, e: ast.AST, depth: int = 4) -> List[str]:
+    """source texts of `e` and of every definition that reaches it (transitively, each at its own program point)"""
+    out = [norm(e)]
+    if depth > 0:
+        for n in ast.walk(e):
+            if isinstance(n, ast.Name) and isinstance(n.ctx, ast.Load):
+                for d in reaching_defs(f, use, n.id):
+                    if isinstance(d, ast.Assign) and len(d.targets) == 1 and isinstance(d.targets[0], ast.Name):
+                        out += flow_texts(f, d, d.value, depth - 1)
+    return out
+
+
+def _node_sources(f: Fn, use: ast.AST, e: ast.AST, depth: int) -> Set[str]:
+    if isinstance(e, ast.Name) and depth > 0 and e.id not in f.fi.params:
+        ds = [d for d in reaching_defs(f, use, e.id) if isinstance(d, ast.Assign) and len(d.targets) == 1
+              and isinstance(d.targets[0], ast.Name)]
+        if ds:
+            out: Set[str] = set()
+            for d in ds:
+                out |= _node_sources(f, d, d.value, depth - 1)
+            return out
+    return {f.alpha.text(e)}
+
+
+def r17_6_cited_node(ctx, rid='R17.6'):
+    """which node's position a class-recognition error cites"""
+    P = ctx.P
+    r = ctx.rule(rid, 'class recognition cites the right node: a missing required key and a non-mapping cite the start of the node '
+                      'under judgement itself, a wrongly typed attribute cites that attribute\'s key node', floor=2)
+    f = fn(P, S.REC + '__recognize_user_class')
+    node = f.fi.params[1]
+    for ret in f.returns():
+        v = verdict(ret)
+        if v is None or v[0] != 'EMPTY' or v[2] != 'ERR':
+            continue
+        msg = v[3].elts[0]
+        txt = ' '.join(flow_texts(f, ret, msg))
+        marks = mark_sources(f, ret, msg)
+        if 'diagnose_missing_key' in txt:
+            r.check(marks == {node}, 'missing required key: the message cites %s.start_mark (the enclosing mapping)' % node,
+                    f.key('missing-key-cites'), f.loc(ret), 'the missing-key error cites the position of %s instead of the start of '
+                    'the mapping under judgement (%s)' % (sorted(marks), node))
+        elif 'Expected a dict/mapping' in txt:
+            r.check(marks == {node}, 'not a mapping: the message cites %s.start_mark' % node, f.key('not-a-mapping-cites'), f.loc(ret),
+                    'the not-a-mapping error cites %s' % sorted(marks))
+        elif 'Error in attribute' in txt:
+            okk = len(marks) == 1 and next(iter(marks)).startswith('[') and next(iter(marks)).endswith('][0]') \
+                and '%s.value' % node in next(iter(marks)) and '[0]' in next(iter(marks))
+            r.check(okk, 'wrong attribute type: the message cites the key node of that attribute', f.key('attribute-error-cites'), f.loc(ret),
+                    'the attribute error cites %s, not the key node of the attribute' % sorted(marks))
     r.done()
 
 
